@@ -144,3 +144,20 @@ Proof.
   exists 8. split; reflexivity.
 Qed.
 Print Assumptions C16_nonvacuous.
+
+(* ------------------------------------------------------------------------------------------------
+   THE TIE TO THE SOURCE for the worker-count normalisation.  EvolutionaryAlgorithm._get_n_jobs is translated on every run
+   (method: self._pop_size and os.cpu_count() are parameters, `raise` = no result) and IS get_n_jobs. *)
+From TF Require Import Py CodeEqC16.
+From TFG Require Import GenCode.
+Open Scope Z_scope.
+
+Theorem C16_code_get_n_jobs : forall cpu pop n ds,
+  py_EA_get_n_jobs cpu pop n ds = match get_n_jobs cpu pop n with Some v => Some (v, ds) | None => None end.
+Proof. exact code_get_n_jobs. Qed.
+Print Assumptions C16_code_get_n_jobs.
+
+Theorem C16_src_get_n_jobs_range : forall cpu pop n v ds ds', 1 <= pop ->
+  py_EA_get_n_jobs cpu pop n ds = Some (v, ds') -> 1 <= v <= pop /\ n <> 0 /\ ds' = ds.
+Proof. exact src_get_n_jobs_range. Qed.
+Print Assumptions C16_src_get_n_jobs_range.
